@@ -97,6 +97,19 @@ class Ret(Exception):
         self.v = v
 
 
+class Alias:
+    """a reference into a container element (int & x = m[k])"""
+
+    def __init__(self, container, key):
+        self.container, self.key = container, key
+
+    def get(self):
+        return self.container[self.key]
+
+    def set(self, v):
+        self.container[self.key] = v
+
+
 class Continue(Exception):
     pass
 
@@ -212,7 +225,19 @@ class Interp:
         elif k == 'ret':
             raise Ret(self.val(st['e']))
         elif k == 'decl':
-            self.env[st['n']] = self.val(st['init']) if st.get('init') is not None else UNDEF
+            init = see_through(st.get('init')) if st.get('init') is not None else None
+            if init is not None and '&' in (st.get('t') or '') and isinstance(init, dict) and init.get('k') == 'call' and init.get('op') == '[]' and init.get('recv') is not None:
+                base = self.val(init['recv'])
+                key = self.val(init['a'][0])
+                if isinstance(base, dict):
+                    base.setdefault(key, 0)
+                    self.env[st['n']] = Alias(base, key)
+                    return
+            v = self.val(st['init']) if st.get('init') is not None else UNDEF
+            self.env[st['n']] = v
+            if st.get('bind') and isinstance(v, tuple) and v and v[0] == 'pair':
+                for nm_, x_ in zip(st['bind'], v[1:]):
+                    self.env[nm_] = x_
         elif k == 'e':
             self.val(st['e'])
         elif k == 'loop':
@@ -284,10 +309,15 @@ class Interp:
             seq = self.val(lp['range'])
             if isinstance(seq, tuple) and seq and seq[0] in ('pterm', 'clause'):
                 seq = list(seq[1:]) if seq[0] == 'pterm' else list(seq[1])
+            if isinstance(seq, dict):
+                seq = [('pair', k_, v_) for k_, v_ in sorted(seq.items(), key=lambda kv: str(kv[0]))]
             if not isinstance(seq, list):
                 raise Unmodelled('range loop over a non-list at line %s' % lp.get('ln'))
             for item in list(seq):
                 self.env[lp['var']] = item
+                if lp.get('bind') and isinstance(item, tuple) and item and item[0] == 'pair':
+                    for nm_, x_ in zip(lp['bind'], item[1:]):
+                        self.env[nm_] = x_
                 try:
                     self.block(lp['body'])
                 except Continue:
@@ -322,7 +352,8 @@ class Interp:
         if k == 'ref':
             n = e['n']
             if n in self.env:
-                return self.env[n]
+                v_ = self.env[n]
+                return v_.get() if isinstance(v_, Alias) else v_
             if n.split('::')[-1] in self.env:
                 return self.env[n.split('::')[-1]]
             if n.endswith('PTRef_Undef'):
@@ -352,6 +383,10 @@ class Interp:
             b = self.val(e['b'])
             if isinstance(b, tuple) and b and b[0] == 'asgn' and e['n'] in ('tr', 'sgn'):
                 return b[1] if e['n'] == 'tr' else b[2]
+            if isinstance(b, tuple) and b and b[0] == 'pair' and e['n'] in ('first', 'second'):
+                return b[1] if e['n'] == 'first' else b[2]
+            if isinstance(b, tuple) and b and b[0] == 'mapiter' and len(b) == 4 and b[2] is not None and e['n'] in ('first', 'second'):
+                return b[2] if e['n'] == 'first' else b[3][b[2]]
             if ('mem:' + e['n']) in self.oracle:
                 return self.oracle['mem:' + e['n']](self, [b], e)
             raise Unmodelled('member %s at line %s' % (e['n'], e.get('ln')))
@@ -369,11 +404,25 @@ class Interp:
             if e['op'] == '!':
                 return not self.truth(e['e'])
             if e['op'] in ('++', '--'):
+                d_ = 1 if e['op'] == '++' else -1
+                tgt = see_through(e['e'])
+                if isinstance(tgt, dict) and tgt.get('k') == 'call' and tgt.get('op') == '[]' and tgt.get('recv') is not None:
+                    base = self.val(tgt['recv'])
+                    key = self.val(tgt['a'][0])
+                    if isinstance(base, dict):
+                        old = base.get(key, 0)
+                        base[key] = old + d_
+                        return old if e.get('post') else base[key]
                 n = path_of(e['e'])
                 if n not in self.env and (n or '').startswith('this.'):
                     return 0            # a statistics counter of the object
-                old = self.env[n]
-                self.env[n] = old + (1 if e['op'] == '++' else -1)
+                cur = self.env[n]
+                if isinstance(cur, Alias):
+                    old = cur.get()
+                    cur.set(old + d_)
+                    return old if e.get('post') else old + d_
+                old = cur
+                self.env[n] = old + d_
                 return old if e.get('post') else self.env[n]
             if e['op'] == '~':
                 v = self.val(e['e'])
@@ -405,12 +454,17 @@ class Interp:
                     raise Unmodelled('element assignment at line %s' % e.get('ln'))
                 n = path_of(e['l'])
                 r = self.val(e['r'])
+                if n in self.env and isinstance(self.env[n], Alias):
+                    self.env[n].set(r)
+                    return r
                 if n in self.env or (n or '').startswith('this.') or ((n or '').split('.')[0] in self.env and '.' in (n or '')):
                     self.env[n] = r          # a member of the object / a field of a local aggregate behaves like a variable of the evaluation
                     return r
                 raise Unmodelled('assignment at line %s' % e.get('ln'))
             l, r = self.val(e['l']), self.val(e['r'])
             if op in ('==', '!='):
+                if isinstance(l, tuple) and isinstance(r, tuple) and l and r and l[0] == 'mapiter' and r[0] == 'mapiter':
+                    l, r = l[:3], r[:3]
                 return (l == r) == (op == '==')
             if op in ('<', '<=', '>', '>=', '-', '+', '&', '|') and isinstance(l, int) and isinstance(r, int):
                 return {'<': l < r, '<=': l <= r, '>': l > r, '>=': l >= r, '-': l - r, '+': l + r, '&': l & r, '|': l | r}[op]
@@ -424,7 +478,7 @@ class Interp:
             return self.val(e['t']) if self.truth(e['c']) else self.val(e['f'])
         if k in ('new', 'init'):
             items = e.get('e') or e.get('a') or []
-            if (e.get('t') or '').startswith(('Map<', 'opensmt::Map<')):
+            if (e.get('t') or '').startswith(('Map<', 'opensmt::Map<', 'std::map<', 'std::unordered_map<')) and '>::' not in (e.get('t') or ''):
                 return {}
             vals = [self.val(x) for x in items]
             if 'PtAsgn' in (e.get('t') or '') and 'vec' not in (e.get('t') or '') and len(vals) == 2:
@@ -455,12 +509,16 @@ class Interp:
                 return base[i + 1]
             if base == ('symmap',):
                 return ('sym', self.default_op)
-            if isinstance(base, dict) and i in base:
+            if isinstance(base, dict):
+                if i not in base:
+                    base[i] = 0            # std::map::operator[] value-initialises a missing entry
                 return base[i]
             raise Unmodelled('index at line %s' % e.get('ln'))
         if op in ('==', '!='):
             l = self.val(e['recv']) if e.get('recv') is not None else self.val(args[0])
             r = self.val(args[0]) if e.get('recv') is not None else self.val(args[1])
+            if isinstance(l, tuple) and isinstance(r, tuple) and l and r and l[0] == 'mapiter' and r[0] == 'mapiter':
+                l, r = l[:3], r[:3]
             return (l == r) == (op == '==')
         if op == '=':
             tgt = e['recv'] if e.get('recv') is not None else args[0]
@@ -491,6 +549,30 @@ class Interp:
                 return len(b)
             if isinstance(b, tuple) and b and b[0] == 'pterm':
                 return len(b) - 1
+        if op == '->' and e.get('recv') is not None and (e.get('cls') or '').startswith(('std::unique_ptr<', 'std::shared_ptr<')) and not args:
+            return self.val(e['recv'])
+        if op == '->' and e.get('recv') is not None and 'iterator<' in (e.get('cls') or '') and not args:
+            b = self.val(e['recv'])
+            if isinstance(b, tuple) and b and b[0] == 'mapiter':
+                if len(b) < 4 or b[2] is None:
+                    raise Unmodelled('dereference of an end() iterator at line %s' % e.get('ln'))
+                return b
+        if e.get('recv') is not None and m in ('find', 'end', 'insert', 'emplace') and (e.get('cls') or '').startswith(('std::map<', 'std::unordered_map<')) \
+                and isinstance(self.val(e['recv']), dict):
+            d = self.val(e['recv'])
+            if m == 'end':
+                return ('mapiter', id(d), None)
+            if m == 'find':
+                key = self.val(args[0])
+                return ('mapiter', id(d), key if key in d else None, d)
+            vals_ = [self.val(x) for x in args]
+            if len(vals_) == 1 and isinstance(vals_[0], list) and len(vals_[0]) == 2:
+                vals_ = vals_[0]
+            if len(vals_) == 1 and isinstance(vals_[0], tuple) and vals_[0] and vals_[0][0] == 'pair':
+                vals_ = list(vals_[0][1:])
+            if len(vals_) == 2:
+                d.setdefault(vals_[0], vals_[1])       # insert / emplace keep an existing entry
+                return None
         if e.get('recv') is not None and m in ('has', 'insert') and isinstance(self.env.get(path_of(e['recv']) or ''), dict):
             d = self.env[path_of(e['recv'])]
             key = self.val(args[0])
@@ -531,6 +613,8 @@ class Interp:
             a0, a1 = self.val(args[0]), self.val(args[1])
             if isinstance(a0, int) and isinstance(a1, int):
                 return min(a0, a1) if callee(e) == 'std::min' else max(a0, a1)
+        if 'make_unique' in callee(e) and 'map<' in (e.get('t') or ''):
+            return {}
         if m == 'move' or callee(e) == 'std::move':
             return self.val(args[0])
         if m in ('getTerm_true', 'getTerm_false'):
